@@ -418,7 +418,125 @@ def gen():
     return 'Grids.lean', '\n'.join(lines), echo
 
 
-GENERATORS = [gen]
+# ------------------------------------------------------------------ how the analyzers hold their `method` dict
+def _is_self_method(node):
+    return isinstance(node, ast.Attribute) and node.attr == 'method' and isinstance(node.value, ast.Name) and node.value.id == 'self'
+
+
+def _is_none_test(test):
+    """`method is None` / `self.method is None`"""
+    return isinstance(test, ast.Compare) and len(test.ops) == 1 and isinstance(test.ops[0], ast.Is) \
+        and isinstance(test.comparators[0], ast.Constant) and test.comparators[0].value is None \
+        and (isinstance(test.left, ast.Name) and test.left.id == 'method' or _is_self_method(test.left))
+
+
+def _classify_given(e):
+    """what `self.method` becomes for a caller-supplied dict: 'keeps' (the object itself) / 'copies' / None (not recognised)"""
+    if isinstance(e, ast.Name) and e.id == 'method':
+        return 'keeps'
+    if isinstance(e, ast.Call):
+        f = e.func
+        if isinstance(f, ast.Name) and f.id == 'dict' and len(e.args) == 1 and isinstance(e.args[0], ast.Name) and e.args[0].id == 'method' and not e.keywords:
+            return 'copies'
+        if isinstance(f, ast.Attribute) and f.attr == 'copy' and isinstance(f.value, ast.Name) and f.value.id == 'method' and not e.args:
+            return 'copies'
+        if isinstance(f, ast.Attribute) and f.attr in ('copy', 'deepcopy') and isinstance(f.value, ast.Name) and f.value.id == 'copy' \
+                and len(e.args) == 1 and isinstance(e.args[0], ast.Name) and e.args[0].id == 'method':
+            return 'copies'
+    return None
+
+
+def _method_assigns(body):
+    """[(value, condition)] of the assignments `self.method = value` in a statement list; condition in
+    {'always', 'none', 'given'} (inside `if method is None:` / its else)"""
+    out = []
+    for st in body:
+        if isinstance(st, ast.Assign) and len(st.targets) == 1 and _is_self_method(st.targets[0]):
+            if isinstance(st.value, ast.IfExp) and _is_none_test(st.value.test):
+                out.append((st.value.body, 'none'))
+                out.append((st.value.orelse, 'given'))
+            else:
+                out.append((st.value, 'always'))
+        elif isinstance(st, ast.If) and _is_none_test(st.test):
+            out += [(v, 'none') for v, c in _method_assigns(st.body) if c == 'always']
+            out += [(v, 'given') for v, c in _method_assigns(st.orelse) if c == 'always']
+            if any(c != 'always' for v, c in _method_assigns(st.body) + _method_assigns(st.orelse)):
+                out.append((None, 'unknown'))
+        elif isinstance(st, (ast.If, ast.For, ast.While, ast.With, ast.Try)):
+            if any(isinstance(n, ast.Assign) and any(_is_self_method(t) for t in n.targets) for n in ast.walk(st)):
+                out.append((None, 'unknown'))
+    return out
+
+
+def _fills_fs(init):
+    """`self.method['Fs'] = self.method.get('Fs', <anything>)` at the top level of __init__"""
+    for st in init.body:
+        if isinstance(st, ast.Assign) and len(st.targets) == 1 and isinstance(st.targets[0], ast.Subscript) \
+                and _is_self_method(st.targets[0].value) and isinstance(st.targets[0].slice, ast.Constant) and st.targets[0].slice.value == 'Fs':
+            v = st.value
+            if isinstance(v, ast.Call) and isinstance(v.func, ast.Attribute) and v.func.attr == 'get' and _is_self_method(v.func.value) \
+                    and len(v.args) == 2 and isinstance(v.args[0], ast.Constant) and v.args[0].value == 'Fs':
+                return True
+    return False
+
+
+METHOD_CLASSES = [('coherence', 'a_coh', 'CoherenceAnalyzer'), ('sparse', 'a_coh', 'SparseCoherenceAnalyzer'),
+                  ('seed', 'a_coh', 'SeedCoherenceAnalyzer'), ('spectral', 'a_spec', 'SpectralAnalyzer')]
+
+
+def gen_methods():
+    """per analyzer class: what the constructor stores in `self.method` for `method=None` (a dict display built there?)
+    and for a caller's dict (the object itself, or a copy), whether it fills `'Fs'` in, whether the default display
+    carries `'Fs'`"""
+    trees = {'a_coh': T.parse('nitime/analysis/coherence.py'), 'a_spec': T.parse('nitime/analysis/spectral.py')}
+    echo, rows, ok = {}, [], True
+    for lean, tree, cls in METHOD_CLASSES:
+        init = T.find_func(trees[tree], '__init__', cls)
+        fresh = keeps = None
+        has_fs = False
+        src = []
+        if init is not None:
+            asg = _method_assigns(init.body)
+            src = ['%s: self.method = %s' % (c, unparse(v) if v is not None else '?') for v, c in asg]
+            if not any(c == 'unknown' for v, c in asg):
+                always = [v for v, c in asg if c == 'always']
+                none_v = [v for v, c in asg if c == 'none']
+                given_v = [v for v, c in asg if c == 'given']
+                # `self.method = method` first, then `if self.method is None: self.method = {...}`
+                if len(always) == 1 and not given_v:
+                    given_v = always
+                    always = []
+                if not always and len(none_v) == 1 and len(given_v) == 1:
+                    fresh = isinstance(none_v[0], ast.Dict)
+                    if fresh:
+                        has_fs = any(isinstance(k, ast.Constant) and k.value == 'Fs' for k in none_v[0].keys)
+                    g = _classify_given(given_v[0])
+                    keeps = None if g is None else (g == 'keeps')
+        fills = _fills_fs(init) if init is not None else False
+        if fresh is None or keeps is None:
+            ok = False
+        rows.append((lean, fresh, keeps, fills, has_fs))
+        echo[cls] = {'assignments': src, 'method_none_builds_dict_display': fresh, 'keeps_callers_dict_object': keeps,
+                     'ctor_fills_Fs': fills, 'default_display_has_Fs': has_fs}
+    b = lambda v: 'true' if v else 'false'
+    lines = ['-- GENERATED by harness/translate_c05.py (gen_methods) from the analyzer constructors. DO NOT EDIT.',
+             'import Nitime.Model.C05Hist', 'namespace Nitime.Generated.Methods', 'open Nitime.C05.Two', '',
+             '/-- every constructor\'s handling of `method` was recognised -/',
+             'def recognised : Bool := %s' % b(ok), '',
+             '/-- `method=None`: the constructor builds a NEW dict (a dict display in `__init__`) -/',
+             'def freshDefault : Cls → Bool']
+    for lean, fresh, keeps, fills, has_fs in rows:
+        lines.append('  | .%s => %s' % (lean, b(fresh)))
+    lines += ['', '/-- a caller\'s dict: kept as the object itself / copied; `\'Fs\'` filled in by `__init__`; default display with `\'Fs\'` -/',
+              'def spec : Cls → MSpec']
+    for lean, fresh, keeps, fills, has_fs in rows:
+        lines.append('  | .%s => ⟨%s, %s, %s⟩' % (lean, b(True if keeps is None else keeps), b(fills), b(has_fs)))
+    lines += ['', 'end Nitime.Generated.Methods', '']
+    return 'Methods.lean', '\n'.join(lines), echo
+
+
+GENERATORS = [gen, gen_methods]
 
 if __name__ == '__main__':
     print(gen()[1])
+    print(gen_methods()[1])
